@@ -168,7 +168,7 @@ def gen_ops(rng, n, tier):
             b = list(a)
         else:
             b = rand_date(rng)
-        cases.append({'a': a, 'b': b, 'n': rng.choice([0, 1, 59, 60, 3600, 86400, 86399, 31536000, -1, -86400, rng.randint(-10 ** 7, 10 ** 8)])})
+        cases.append({'a': a, 'b': b, 'edit': rng.choice([None, None, 'fields', 'copy']), 'n': rng.choice([0, 1, 59, 60, 3600, 86400, 86399, 31536000, -1, -86400, rng.randint(-10 ** 7, 10 ** 8)])})
     return cases
 
 
@@ -179,9 +179,18 @@ def to_secs(f):
 def run_ops(case):
     from tracklib.core import ObsTime
     a = ObsTime(*case['a']); b = ObsTime(*case['b'])
+    a0 = ObsTime(*(case['a'][:6] + [0]))
+    if case.get('edit'):
+        # the same timestamps reached by editing the public calendar fields of objects that were already converted, compared and shifted
+        a = ObsTime(*case['b']); a0 = ObsTime(*case['b'])
+        for o in (a, a0):
+            o.toAbsTime(); o.addSec(1); o - b; o < b
+        a.year, a.month, a.day, a.hour, a.min, a.sec, a.ms = case['a']
+        a0.year, a0.month, a0.day, a0.hour, a0.min, a0.sec, a0.ms = case['a'][:6] + [0]
+        if case['edit'] == 'copy':
+            a = a.copy(); a0 = a0.copy()
     res = {'lt': a < b, 'gt': a > b, 'le': a <= b, 'ge': a >= b, 'eq': a == b, 'ne': a != b,
            'abs_a': a.toAbsTime(), 'sub': a - b}
-    a0 = ObsTime(*(case['a'][:6] + [0]))
     if to_secs(case['a']) + case['n'] >= 0:
         res['add'] = fields(a0.addSec(case['n']))
     return res
@@ -222,7 +231,7 @@ def oracle_ops(case, obs):
 
 S_OPS = Stream(
     name='ops', budget={'quick': 1500, 'thorough': 40000},
-    rule=('pairs of well-formed timestamps: one field apart by one unit (50%), equal (10%), independent (40%), years 1970..2110, ms included; '
+    rule=('pairs of well-formed timestamps (half of them reached by editing the calendar fields of an object that was already converted / shifted / compared, or a copy of it): one field apart by one unit (50%), equal (10%), independent (40%), years 1970..2110, ms included; '
           'observed: < > <= >= == !=, toAbsTime, and addSec(n) for offsets crossing minute/hour/day/year ends; non-trivial = the two differ'),
     imports=IMPORTS, case_type='date * date * date * (bool*bool*bool*bool*bool) * Z * option date * Q',
     check_def=('''Definition beq (a b : bool) : bool := if a then b else negb b.
